@@ -28,8 +28,47 @@ pub fn text_cmp(name: &str) -> fn(&str, &str) -> bool {
         "prefix" => |a, b| b.starts_with(a),
         "true" => |_, _| true,
         "false" => |_, _| false,
+        "trim" => |a, b| {
+            a.trim_matches(|c: char| c.is_ascii_whitespace()) == b.trim_matches(|c: char| c.is_ascii_whitespace())
+        },
+        "num" => |a, b| num_canon(a) == num_canon(b),
         _ => unreachable!(),
     }
+}
+
+/// Comparisons that equate strings of DIFFERENT byte length (`" v "` = `"v"`, `2.50` = `2.5`), used by
+/// `custom_family` only: they are not in `CMPS`, so the random stream of the generated cases is unchanged.
+/// Same functions as `Driver/Compare.lean textCmpOf "trim" / "num"`.
+pub const CUSTOM_CMPS: &[&str] = &["trim", "num"];
+
+/// Normal form of a decimal numeral `-?digits(.digits)?` (ASCII digits, at least one on either side of the
+/// point when there is a point): leading zeros of the integer part and trailing zeros of the fraction dropped,
+/// an empty fraction dropped with its point; any other string is its own normal form.
+pub fn num_canon(s: &str) -> String {
+    let (neg, rest) = match s.strip_prefix('-') {
+        Some(r) => (true, r),
+        None => (false, s),
+    };
+    let (int, frac) = match rest.split_once('.') {
+        Some((i, f)) => (i, Some(f)),
+        None => (rest, None),
+    };
+    let digits = |x: &str| !x.is_empty() && x.bytes().all(|b| b.is_ascii_digit());
+    if !digits(int) || frac.map_or(false, |f| !digits(f)) {
+        return s.to_string();
+    }
+    let int = int.trim_start_matches('0');
+    let frac = frac.unwrap_or("").trim_end_matches('0');
+    let mut out = String::new();
+    if neg {
+        out.push('-');
+    }
+    out.push_str(if int.is_empty() { "0" } else { int });
+    if !frac.is_empty() {
+        out.push('.');
+        out.push_str(frac);
+    }
+    out
 }
 
 /// The menu of node filters (same as `Driver/Compare.lean filterOf`).
@@ -472,6 +511,76 @@ fn corpus(sink: &mut Sink) {
     }
 }
 
+/// C13_custom_applies_everywhere: a supplied comparison that equates strings of DIFFERENT byte length is what
+/// decides, on pairs of trees that differ at exactly ONE place — an attribute value (of the compared element, of
+/// an element below it, of an element with a second attribute), the value of a compared attribute NODE, a text
+/// node (child, grandchild), the data of a PI.  Comment data is documented to be compared with `==` whatever
+/// the comparison ("Text nodes and attributes are compared using the provided comparison function"); the
+/// oracle holds the implementation to that.  Deterministic (no `Rng`), both argument orders, unfiltered
+/// `advanced_deep_equal` and `deep_equal_xpath`.
+fn custom_family(sink: &mut Sink) {
+    let a = |n: usize, v: &str| GTree::leaf(GValue::Attribute(n, v.to_string()));
+    let e = |n: usize, kids: Vec<GTree>| GTree::new(GValue::Element(n), kids);
+    let t = |s: &str| GTree::leaf(GValue::Text(s.to_string()));
+    let pairs: &[(&'static str, &str, &str)] = &[
+        ("trim", " v ", "v"),
+        ("trim", "v", "v\t\n"),
+        ("trim", "  v", "v  "),
+        ("trim", "v w", "vw"),
+        ("trim", "v", "w "),
+        ("trim", " ", "   "),
+        ("trim", "\u{e9} ", "\u{e9}"),
+        ("num", "2.50", "2.5"),
+        ("num", "02", "2"),
+        ("num", "2.0", "2"),
+        ("num", "-0.50", "-0.5"),
+        ("num", "2.5", "2.60"),
+        ("num", "1e1", "10"),
+        ("num", "2.", "2"),
+        ("num", "x", "x"),
+    ];
+    let places: &[&'static str] =
+        &["attribute", "attribute-second", "attribute-below", "attribute-node", "text", "text-below", "pi", "comment"];
+    for &(c, x, y) in pairs {
+        for &place in places {
+            let mk = |v: &str| -> GTree {
+                match place {
+                    "attribute" | "attribute-node" => e(2, vec![a(3, v)]),
+                    "attribute-second" => e(2, vec![a(4, "k"), a(3, v), t("q")]),
+                    "attribute-below" => e(2, vec![t("p"), e(3, vec![a(4, v), t("q")])]),
+                    "text" => e(2, vec![a(3, "k"), t(v)]),
+                    "text-below" => e(2, vec![e(3, vec![t(v)]), t("q")]),
+                    "pi" => e(2, vec![GTree::leaf(GValue::PI(18, Some(v.to_string())))]),
+                    "comment" => e(2, vec![GTree::leaf(GValue::Comment(v.to_string()))]),
+                    _ => unreachable!(),
+                }
+            };
+            let cmp = text_cmp(c);
+            for (l, r) in [(x, y), (y, x), (x, x)] {
+                let mut xot = Xot::new();
+                let vocab = Vocab::standard(&mut xot);
+                let f = Forest::build(&mut xot, &vocab, vec![mk(l), mk(r)]);
+                let (ra, rb) = if place == "attribute-node" {
+                    (f.find(0, &[0]).unwrap(), f.find(1, &[0]).unwrap())
+                } else {
+                    ((0, 0), (1, 0))
+                };
+                let op = Op::Adv("all", c);
+                let got = run_binary(sink, &xot, &vocab, &f, &op, ra, rb);
+                let want = if place == "comment" { l == r } else { cmp(l, r) };
+                sink.stat(&format!("custom.{}.{}.{}", c, place, want));
+                if l.len() != r.len() && want {
+                    sink.stat(&format!("custom.equated-different-length.{}", place));
+                }
+                let req = format!("cmp {} {} {} {}", op.words(), f.refstr(ra), f.refstr(rb), f.wire());
+                oracle::check_custom(sink, place, c, l, r, got, want, &req);
+                run_binary(sink, &xot, &vocab, &f, &Op::Xpath(c), ra, rb);
+                run_binary(sink, &xot, &vocab, &f, &Op::Deep, ra, rb);
+            }
+        }
+    }
+}
+
 /// Exhaustive small scope: every pair of elements over 2 attribute names x 2 values (in both
 /// orders), with every ignore list of length <= 3 over {3, 4, 17}; filters x comparisons on a
 /// few structural pairs.
@@ -549,6 +658,7 @@ pub fn run(seed: u64, count: usize, tier: &str, sink: &mut Sink) {
         sink.emit(vocab.wire(), "ok".to_string());
     }
     corpus(sink);
+    custom_family(sink);
     if tier == "thorough" {
         small_scope(sink);
     }
